@@ -15,6 +15,7 @@ func init() {
 	register(&PropDef{ID: "C01", Title: "In-memory filespace behaves as an abstract file tree on every history", Rules: rulesC01,
 		Explanation: "Decided (structural necessary conditions, package memfs, all paths): R1 every path parameter of every memfs.Filespace method reaches lookup/creation helpers only through CleanPath/ReduceAbsPath (sibling queries answer alike for redundant spellings); R2 list and name index of a directory change together under one lock hold; R3 on the empty-only path a directory is removed only after an emptiness test on that directory; R4 copies are deep: copyFile hands NewFile a freshly allocated slice, every element of a copied directory's child list is the result of copyDir/copyFile; R5 slices returned through ReadFile/ReadDir never alias File.data/Dir.nodes; R6 a caller-supplied []byte is never stored into File.data without a copy; R7 create-or-replace happens under the directory's outer lock; R8 each child-view method calls the same-named operation of the wrapped filespace with its arguments in order and returns its results; R9/R10 every path a child view hands to the wrapped filespace (and the base of a nested view) is reduced before it is joined to the view's base, so a child view is a relabelling of its own subtree only. " +
 			"R11 varutil.CleanPath strips the leading separator from the output of path.Clean (clean first, then strip: otherwise '//d/f' yields a node named '' and '/../x' a node named '..'); R12 the filespace object remembers no tree node but its root (a memoised *Dir can be detached by a Remove and then swallows writes); R4 also requires that copyFile/copyDir return a newly built node on every path. R13 Copy/CopyDirectory/CopyFile change the tree (create destination parents, add the copy) only after the source node was found: a failing copy leaves no directories behind; R15 in the memory backend and the path normalisers no path is altered byte-wise or tested against a fragment of a name (HasPrefix(p, \"..\") also rejects the legal name '..config'): names are opaque bytes, only whole segments and the separator are structure (same rule as C02.R8 / C03.R9); R14 every insert into a directory's name index follows, under the same hold of the directory lock, a miss of that very name (one node per name; same analysis as C09.L4). " +
+			"Added in round 7: R5 judges any field of a memfs type as shared storage (a cached listing handed to every caller is as shared as Dir.nodes itself). " +
 			"NOT decided: equality of results and tree with the abstract model over histories, listing order, error cases, and the phantom-node clause ('.', '', '..' as node names: MkdirAll(\".\") creates a node named '.' on today's tree — a value-level defect outside this family's reach, see DESIGN.md §6).",
 	})
 }
@@ -698,7 +699,7 @@ func ruleSnapshotOut(c *Ctx, rule string, methods map[string]*ssa.Function) int 
 			}
 			os := Origins(v, FlowOpts{Alias: true, Interproc: 3})
 			for _, o := range os {
-				if o.Kind == "field" && (o.Name == "memfs.File.data" || o.Name == "memfs.Dir.nodes") {
+				if o.Kind == "field" && strings.HasPrefix(o.Name, "memfs.") {
 					bad = "the returned slice shares its backing store with " + o.Name
 				}
 				if o.Kind == "param" || o.Kind == "unknown" {
